@@ -5,7 +5,8 @@ import ast
 
 from .. import facts
 from ..astutil import (call_name, calls_in, const_str, dotted, kwarg, literal,
-                       norm, walk_no_nested)
+                       norm, str_template, str_template_args,
+                       walk_no_nested)
 from ..cfg import CFG
 from ..guards import conditions_at
 from ..loader import AnchorError, Undecided
@@ -35,6 +36,9 @@ NOT_DECIDED = [
 ]
 
 
+KEEP = {"samples", "response", "fnames", "path", "names", "which_type"}
+
+
 def _lts(ctx):
     m = ctx.repo.mod("rate.rater")
     f = m.func("IndentationRater.load_training_set")
@@ -49,9 +53,27 @@ def _block(f, flag):
     raise AnchorError(f"load_training_set has no `if {flag}:` block")
 
 
+def _is_column_loop_var(idx, at, R):
+    """idx is the variable of an enclosing loop over the feature columns"""
+    if not isinstance(idx, ast.Name):
+        return False
+    lp = getattr(at, "_parent", None)
+    while lp is not None:
+        if isinstance(lp, ast.For):
+            tg = lp.target
+            names = [norm(tg)] if isinstance(tg, ast.Name) else [
+                norm(e) for e in getattr(tg, "elts", [])]
+            if idx.id in names[:1]:
+                it = R.text(lp.iter)
+                return it in ("range(len(fnames))", "enumerate(fnames)",
+                              "range(samples.shape[1])")
+        lp = getattr(lp, "_parent", None)
+    return False
+
+
 def r1_row_alignment(ctx):
     m, f = _lts(ctx)
-    R = Resolver(f)
+    R = Resolver(f, keep=KEEP)
     # statements that re-bind samples / response after loading
     reb = {"samples": [], "response": []}
     first = {}
@@ -109,7 +131,7 @@ def r1_row_alignment(ctx):
                         "samples", "response"):
                     ok = norm(t.value) == "samples" and isinstance(
                         t.slice, ast.Tuple) and len(t.slice.elts) == 2 and \
-                        norm(t.slice.elts[1]) == "ii"
+                        _is_column_loop_var(t.slice.elts[1], st, R)
                     ctx.check(ok, st, f"element store {norm(t)}",
                               "values are overwritten other than through "
                               "(row mask, feature column)")
@@ -144,19 +166,21 @@ def r2_stages(ctx):
               "the cleaning stages run in a different order (imputation "
               "after dropping never sees the NaN rows; inf replacement "
               "before dropping computes extremes over rows that vanish)")
-    R = Resolver(f)
+    R = Resolver(f, keep=KEEP)
     # imputation
     st = [s for s in ast.walk(imp) if isinstance(s, ast.Assign)
           and isinstance(s.targets[0], ast.Subscript)
           and norm(s.targets[0].value) == "samples"]
     ctx.floor("imputation store", len(st), 1)
     s0 = st[0]
-    tgt = R.text(s0.targets[0].slice.elts[0])
+    cv = norm(s0.targets[0].slice.elts[1])
+    tgt = R.text(s0.targets[0].slice.elts[0]).replace(f"[:, {cv}]",
+                                                      "[:, ii]")
     want_t = "np.logical_and(response == 0, np.isnan(samples[:, ii]))"
     ctx.check(tgt == want_t, s0, f"imputation target rows: {tgt[:70]}",
               "imputation does not target exactly the zero-rated rows whose "
               "feature is NaN")
-    val = R.text(s0.value)
+    val = R.text(s0.value).replace(f"[:, {cv}]", "[:, ii]")
     want_v = ("np.mean(samples[:, ii][np.logical_and(response == 0, "
               "~np.isnan(samples[:, ii]))])")
     ctx.check(val == want_v, s0, f"imputed value: {val[:80]}",
@@ -174,10 +198,12 @@ def r2_stages(ctx):
               and norm(s.targets[0].value) == "samples"]
     ctx.check(len(stores) == 2, inf, f"{len(stores)} inf replacements",
               "positive and negative infinity are not both replaced")
-    R2 = Resolver(f)
+    R2 = Resolver(f, keep=KEEP)
     for s in stores:
-        rows = R2.text(s.targets[0].slice.elts[0])
-        v = R2.text(s.value)
+        cv = norm(s.targets[0].slice.elts[1])
+        rows = R2.text(s.targets[0].slice.elts[0]).replace(
+            f"[:, {cv}]", "[:, ii]")
+        v = R2.text(s.value).replace(f"[:, {cv}]", "[:, ii]")
         ext = "np.nanmax(np.abs(samples[:, ii][~np.isinf(samples[:, ii])]))"
         if "isposinf" in rows:
             ctx.check(v in (f"2 * {ext}", f"{ext} * 2"), s,
@@ -203,7 +229,7 @@ def r2_stages(ctx):
 
 def r3_name_selector(ctx):
     m, f = _lts(ctx)
-    R = Resolver(f)
+    R = Resolver(f, keep=KEEP)
     fn = [st for st in walk_no_nested(f, False) if isinstance(st, ast.Assign)
           and norm(st.targets[0]) == "fnames"]
     ok = len(fn) == 1 and norm(fn[0].value) == \
@@ -223,9 +249,9 @@ def r3_name_selector(ctx):
     ctx.check(bool(cat) and norm(kwarg(cat[0], "axis")) == "1", f,
               "feature columns concatenated along axis 1 in fnames order",
               "feature columns are not concatenated as columns")
-    tmpl = [const_str(c.func.value) for c in calls_in(f)
-            if isinstance(c.func, ast.Attribute) and c.func.attr == "format"
-            and const_str(c.func.value)]
+    tmpl = [str_template(n) for n in ast.walk(f)
+            if isinstance(n, (ast.JoinedStr, ast.Call))
+            and str_template(n) is not None]
     ctx.check("train_{}.txt" in tmpl, f, "feature file train_<name>.txt",
               "feature file name template changed")
     ctx.check(any(isinstance(n, ast.Constant) and n.value ==
@@ -273,6 +299,13 @@ def r3_name_selector(ctx):
         rn = [st for st in walk_no_nested(f, False)
               if isinstance(st, ast.Expr) and isinstance(st.value, ast.Call)
               and norm(st.value) == "res.append(fnames)"]
+        rn += [r for r in walk_no_nested(f, False)
+               if isinstance(r, ast.Return) and isinstance(
+                   r.value, (ast.List, ast.Tuple))
+               and [norm(e) for e in r.value.elts] == ["samples", "response",
+                                                       "fnames"]]
+        rn = [x for x in rn if any(a.pol and a.text == "ret_names"
+                                   for a in conditions_at(x))]
         ctx.check(bool(rn), f, "ret_names returns the column names",
                   "ret_names does not return the loaded column names")
 
@@ -283,10 +316,9 @@ def r4_export_load(ctx):
     ctx.analysed(ex)
     R = Resolver(ex)
     raters = [st for st in walk_no_nested(ex, False)
-              if isinstance(st, ast.Assign) and norm(st.targets[0]) ==
-              "raters"]
-    ctx.check(bool(raters) and norm(raters[0].value) ==
-              "rater.IndentationRater.get_feature_funcs()", ex,
+              if isinstance(st, ast.Assign) and norm(st.value) ==
+              "rater.IndentationRater.get_feature_funcs()"]
+    ctx.check(bool(raters), ex,
               "exported columns = all features in get_feature_names order",
               "the exported feature list is not get_feature_funcs()")
     saves = [c for c in calls_in(ex) if call_name(c) == "np.savetxt"]
@@ -298,17 +330,24 @@ def r4_export_load(ctx):
                   "export format is not %.2e (three significant digits)")
     loops = [n for n in walk_no_nested(ex, False) if isinstance(n, ast.For)]
     ok = False
+    rname = norm(raters[0].targets[0]) if raters else "raters"
     for lp in loops:
         if isinstance(lp.iter, ast.Call) and call_name(lp.iter) == \
-                "enumerate" and norm(lp.iter.args[0]) == "raters":
-            ii, rti = [norm(e) for e in lp.target.elts]
-            paths = [norm(st.value) for st in lp.body
-                     if isinstance(st, ast.Assign)]
+                "enumerate" and norm(lp.iter.args[0]) == rname:
+            ii = norm(lp.target.elts[0])
+            second = lp.target.elts[1]
+            if isinstance(second, ast.Tuple):
+                name_expr = norm(second.elts[0])
+            else:
+                name_expr = f"{norm(second)}[0]"
+            tm = [(str_template(n), str_template_args(n))
+                  for st in lp.body for n in ast.walk(st)
+                  if isinstance(n, (ast.JoinedStr, ast.Call))
+                  and str_template(n) == "train_{}.txt"]
             sv = [c for st in lp.body for c in ast.walk(st)
                   if isinstance(c, ast.Call) and call_name(c) == "np.savetxt"]
-            ok = any(f"'train_{{}}.txt'.format({rti}[0])" in p
-                     for p in paths) and bool(sv) and \
-                f"samples[:, {ii}]" in norm(sv[0].args[1])
+            ok = any(a == [name_expr] for _, a in tm) and bool(sv) and \
+                f"[:, {ii}]" in norm(sv[0].args[1])
     ctx.check(ok, ex, "column i is written to train_<name of feature i>.txt",
               "exported column index and feature name do not correspond")
     ok = any("train_response.txt" in norm(st) for st in walk_no_nested(
@@ -316,9 +355,10 @@ def r4_export_load(ctx):
     ctx.check(ok, ex, "response written to train_response.txt",
               "response file name differs from the loader's")
     usr = [st for st in walk_no_nested(ex, False) if isinstance(st, ast.Assign)
-           and norm(st.targets[0]) == "user"]
-    ctx.check(bool(usr) and norm(usr[0].value) ==
-              "self.get_rates(which='user')", ex,
+           and norm(st.value) in ("self.get_rates(which='user')",
+                                  "self.get_rates('user')",
+                                  "self.get_rates()")]
+    ctx.check(bool(usr), ex,
               "response = user ratings", "response is not the user ratings")
     # samples: features of every stored curve in container order
     gs = io.func("RateManager._get_samples")
